@@ -9,7 +9,7 @@ use std::time::Instant;
 
 pub static PROP: Prop = Prop {
     id: "C08",
-    rule: "(a) non-terminating programs from the grid loop kind {loop, while true, until false, for over an endless generator, for over iterator.repeat, self recursion, mutual recursion} x placement {top level, function, method, closure nested three deep, @+ overload, @< overload reached from sort, @display reached from interpolation, @next of an iterated object, generator body consumed by for, callback of a native adaptor, key function of sort, imported module top level, @index reached from argument unpacking} x wrapping {none, try/catch around, catch-all inside the loop, outer retry loop around a try} x per-iteration weight {one instruction, ~50 instructions, one ~20 us native call} x limit {20, 40, 80 ms; thorough also 200 and 600 ms}, each run in a forked child: compile_and_run must return the timeout error within 3 x limit + 1 s (a hang beyond 20 x limit + 10 s is killed and counts as a violation), no catch block may have run ('CAUGHT' never printed, the retry loop never retried), and afterwards the same instance runs `print 1 + 1` correctly and reports empty stacks through the guarded accessor. An exceedance is re-run twice alone and only counts when it exceeds 3 out of 3 times. (b) terminating programs (every runnable corpus item) print the same and end the same way with no limit and with a 5 s limit. Non-trivial: a placement other than the top level, or a wrapping.",
+    rule: "(a) non-terminating programs from the grid loop kind {loop, while true, until false, for over an endless generator, for over iterator.repeat, self recursion, mutual recursion} x placement {top level, function, method, closure nested three deep, @+ overload, @< overload reached from sort, @display reached from interpolation, @next of an iterated object, generator body consumed by for, callback of a native adaptor, key function of sort, imported module top level, @index reached from argument unpacking} x wrapping {none, try/catch around, catch-all inside the loop, outer retry loop around a try} x per-iteration weight {one instruction, ~50 instructions, one ~20 us native call} x limit {20, 40, 80 ms; thorough also 200 and 600 ms}, each run in a forked child: compile_and_run must return the timeout error within 3 x limit + 1 s (a hang beyond 20 x limit + 10 s is killed and counts as a violation), no catch block may have run ('CAUGHT' never printed, the retry loop never retried), and afterwards the same instance runs `print 1 + 1` correctly and reports empty stacks through the guarded accessor. An exceedance only counts when the run also consumed more CPU time than the bound (otherwise the machine is overloaded and the case is not judged on time), and is re-run twice: 3 out of 3. (b) terminating programs (every runnable corpus item) print the same and end the same way with no limit and with a 5 s limit. Non-trivial: a placement other than the top level, or a wrapping.",
     assumptions: &[
         "wall-clock bound 3 x limit + 1 s against scheduler noise; loops that spin inside one native library call are excluded as documented",
         "known finding by construction: iterations dominated by a heavy native call (the first deadline check is scheduled by instruction count) are not in the search grid; one such case is replayed as the finding's reproduction",
@@ -93,8 +93,15 @@ fn module_dir(tag: &str) -> PathBuf {
     PathBuf::from(format!("/verif/engine/run/c08-modules/{}-{tag}", std::process::id()))
 }
 
-/// Runs the case once (in the calling process); returns (elapsed ms, stdout, outcome, usable afterwards, stacks)
-fn run_once(c: &Case, dir: &PathBuf) -> (u128, String, kx::Outcome, bool, [usize; 5]) {
+fn cpu_ms() -> u128 {
+    let mut ru: libc::rusage = unsafe { std::mem::zeroed() };
+    unsafe { libc::getrusage(libc::RUSAGE_SELF, &mut ru) };
+    (ru.ru_utime.tv_sec as u128 + ru.ru_stime.tv_sec as u128) * 1000 + (ru.ru_utime.tv_usec as u128 + ru.ru_stime.tv_usec as u128) / 1000
+}
+
+/// Runs the case once (in the calling process); returns (elapsed wall ms, stdout, outcome, usable afterwards,
+/// stacks, CPU ms consumed by the run)
+fn run_once(c: &Case, dir: &PathBuf) -> (u128, String, kx::Outcome, bool, [usize; 5], u128) {
     let _ = std::fs::create_dir_all(dir);
     if PLACES[c.place] == "import" {
         let _ = std::fs::write(dir.join("loopmod.koto"), program(c, true));
@@ -105,13 +112,15 @@ fn run_once(c: &Case, dir: &PathBuf) -> (u128, String, kx::Outcome, bool, [usize
     let opts = RunOpts { limit_ms: Some(c.limit_ms), script_path: Some(dir.join("main.koto").to_string_lossy().to_string()), ..Default::default() };
     let mut koto = koto::Koto::with_settings(kx::settings(&cap, &opts));
     let t0 = Instant::now();
+    let cpu0 = cpu_ms();
     let outcome = kx::run_on(&mut koto, &src, &opts);
     let elapsed = t0.elapsed().as_millis();
+    let cpu = cpu_ms().saturating_sub(cpu0);
     let stdout = cap.take();
     let stacks = koto.verif_stack_sizes();
     let after = kx::run_on(&mut koto, "print 1 + 1\n", &opts);
     let usable = after.is_ok() && cap.take() == "2\n";
-    (elapsed, stdout, outcome, usable, stacks)
+    (elapsed, stdout, outcome, usable, stacks, cpu)
 }
 
 pub fn bound_ms(limit: u64) -> u128 {
@@ -132,7 +141,7 @@ fn eval_in_child(c: &Case, dir: &PathBuf) -> Eval {
     let mut over = 0;
     let mut last = 0;
     for attempt in 0..3 {
-        let (elapsed, stdout, outcome, usable, stacks) = run_once(c, dir);
+        let (elapsed, stdout, outcome, usable, stacks, cpu) = run_once(c, dir);
         last = elapsed;
         if stdout.contains("CAUGHT") {
             ev.fail = Some(Fail::new(format!("c08:caught|{}", PLACES[c.place]), format!("a catch block ran after the timeout ({tag}, limit {} ms, {elapsed} ms): stdout {:?}, outcome {:?}\n{src}", c.limit_ms, stdout.chars().take(200).collect::<String>(), outcome.err_first_line())));
@@ -148,6 +157,12 @@ fn eval_in_child(c: &Case, dir: &PathBuf) -> Eval {
         }
         if stacks != [0, 0, 0, 0, 0] {
             ev.fail = Some(Fail::new(format!("c08:residue|{}", PLACES[c.place]), format!("{tag}, limit {} ms: after the timeout the VM holds {stacks:?}\n{src}", c.limit_ms)));
+            return ev;
+        }
+        if elapsed > bound_ms(c.limit_ms) && cpu <= bound_ms(c.limit_ms) {
+            // the wall clock ran past the bound but the run itself did not consume that much CPU time:
+            // the machine is overloaded (a late timeout spins, so it shows in CPU time as well)
+            ev.classes.push("overloaded-machine");
             return ev;
         }
         if elapsed > bound_ms(c.limit_ms) {
